@@ -189,6 +189,9 @@ def make_spec(prog, rng, options=None, actions=None, extra_top="", epilogue=None
         out.append("%s SC%d" % ("%x" if excl else "%s", i + 2))
     out.append("%%")
     for i, p in enumerate(pats):
+        if prog['rules'][i].get('bar') and i + 1 < len(pats):
+            out.append("%s\t|" % p)           # the '|' action: same action as the following rule
+            continue
         act = actions[i] if actions and actions.get(i) is not None else "tok(%d);" % (i + 1)
         out.append("%s\t{ %s }" % (p, act))
     out.append("%%")
@@ -197,6 +200,26 @@ def make_spec(prog, rng, options=None, actions=None, extra_top="", epilogue=None
 
 
 # ------------------------------------------------------------------ S-expression of a program
+def owners(prog):
+    """rule number -> number of the rule whose action text runs (for '|' actions)."""
+    n = len(prog['rules'])
+    own = {}
+    nxt = None
+    for i in range(n, 0, -1):
+        r = prog['rules'][i - 1]
+        if r.get('bar') and i < n:
+            own[i] = nxt
+        else:
+            own[i] = i
+            nxt = i
+        nxt = own[i]
+    return own
+
+
+def owners_sx(prog):
+    return "(" + " ".join("(%d %d)" % (r, o) for r, o in sorted(owners(prog).items())) + ")"
+
+
 def sx_program(prog):
     rules = []
     for r in prog['rules']:
